@@ -394,6 +394,10 @@ pub fn run(args: &[String]) {
                         part.iter()
                             .map(|case| {
                                 let id = case["id"].as_u64().unwrap_or(0);
+                                let own_sigma: Option<Vec<u32>> = case.get("sigma").and_then(|v| {
+                                    v.as_array().map(|a| a.iter().filter_map(|x| x.as_u64()).map(|x| x as u32).collect())
+                                });
+                                let sigma: &[u32] = own_sigma.as_deref().unwrap_or(sigma);
                                 let rec = match case["kind"].as_str().unwrap_or("glob") {
                                     "any" => {
                                         let members: Vec<String> = case["members"]
